@@ -433,10 +433,17 @@ def run(ctx: Context, rep) -> None:
     # nothing read from the dataset's files / the environment is memoised
     from sa.rules import shared as _shm
     _shm.check_no_memo(ctx, rep, "C04.memo")
+    # what is recorded as written can be decoded: both directions of every
+    # codec pair the same library calls (same check as C01.codec)
+    from sa.rules import shared as _sh04b
+    _sh04b.share_rules(ctx, rep, "c01", {"C01.codec": "C04.codec"})
     # shard file names never collide across sessions: derived from uuid4()
     # (same check as C06.who)
     from sa.rules import shared as _sh04
     _sh04.share_rules(ctx, rep, "c06", {"C06.who": "C04.names"})
+    # lists are extended from what is on disk at the time of use (same check
+    # as C08.load)
+    _sh04.share_rules(ctx, rep, "c08", {"C08.load": "C04.load"})
 
 def check_fresh_records(ctx: Context, rep, rule: str) -> None:
     """Every child record (re-)attached to a list by merge_shard_infos is
